@@ -40,6 +40,9 @@ type errFlowCfg struct {
 	allowClassify bool
 	// forbidEOF: in state N a return of the io.EOF sentinel is a violation ("source error turned into clean EOF").
 	forbidEOF bool
+	// passThrough: effectful calls that only reposition or clean up (Seek back to a saved position, Close on an error
+	// path); reaching one with a pending error is not "carrying on after a failure".
+	passThrough func(site ssa.CallInstruction) bool
 }
 
 var errorType = types.Universe.Lookup("error").Type()
@@ -543,6 +546,9 @@ func flowOne(p *Program, fn *ssa.Function, site *ssa.Call, e ssa.Value, cfg errF
 					break
 				}
 				if ok, label := cfg.inScope(x); ok || in == ssa.Instruction(site) {
+					if in != ssa.Instruction(site) && cfg.passThrough != nil && cfg.passThrough(x) {
+						break
+					}
 					if in == ssa.Instruction(site) {
 						label = "the same call (loop)"
 					}
@@ -858,4 +864,13 @@ func fieldName(t types.Type, idx int) string {
 		return st.Field(idx).Name()
 	}
 	return fmt.Sprintf("f%d", idx)
+}
+
+// repositioningCall: an absolute Seek on a ReadSeeker (or the iterator's seekTo): moves the stream, consumes nothing.
+func repositioningCall(ci ssa.CallInstruction) bool {
+	c := ci.Common()
+	if c.IsInvoke() && c.Method.Name() == "Seek" {
+		return true
+	}
+	return calleeRepoName(ci) == "mcap.indexedMessageIterator.seekTo"
 }
